@@ -322,6 +322,20 @@ Title=\"{}\"
     f.write(output.encode(sym_encoding, ignore_encoding_errors))
 
 
+def split_comment(line):  # type: (str) -> typing.Tuple[str, typing.Optional[str]]
+    """Split a line at the '//' that starts its comment: the first one that does not stand inside a quoted text.
+
+    :return: the statement and the comment (None without comment), both as they stand in the line
+    """
+    quoted = False
+    for position, char in enumerate(line):
+        if char == '"':
+            quoted = not quoted
+        elif char == '/' and not quoted and line[position:position + 2] == '//':
+            return line[:position], line[position + 2:]
+    return line, None
+
+
 def load(f, **options):  # type: (typing.IO, **typing.Any) -> canmatrix.CanMatrix
     if 'symImportEncoding' in options:
         sym_import_encoding = options["symImportEncoding"]
@@ -378,7 +392,7 @@ def load(f, **options):  # type: (typing.IO, **typing.Any) -> canmatrix.CanMatri
                 line = line.strip()
                 if line.startswith('enum'):
                     while not line[5:].strip().endswith(')'):
-                        line = line.split('//')[0]
+                        line = split_comment(line)[0]
                         if sys.version_info > (3, 0):  # is there a clean way to to it?
                             next_line = f.readline().decode(sym_import_encoding)
                         else:
@@ -386,7 +400,7 @@ def load(f, **options):  # type: (typing.IO, **typing.Any) -> canmatrix.CanMatri
                         if next_line == "":
                             raise EOFError("Reached EOF before finding terminator for enum :\"{}\"".format(line))
                         line += next_line.strip()
-                    line = line.split('//')[0]
+                    line = split_comment(line)[0]
                     temp_array = line[5:].strip().rstrip(')').split('(', 1)
                     val_table_name = temp_array[0]
                     split = canmatrix.utils.quote_aware_comma_split(temp_array[1])
@@ -431,10 +445,10 @@ def load(f, **options):  # type: (typing.IO, **typing.Any) -> canmatrix.CanMatri
                     if tmp_mux == "Mux":
                         index_offset = 0
                     comment = ""
-                    if '//' in line:
-                        split = line.split('//', 1)
-                        comment = split[1].strip()
-                        line = split[0].strip()
+                    statement, comment_text = split_comment(line)
+                    if comment_text is not None:
+                        comment = comment_text.strip()
+                        line = statement.strip()
                     line = line.replace('  ', ' "" ')
 
                     temp_array = canmatrix.utils.quote_aware_space_split(line)
@@ -619,10 +633,10 @@ def load(f, **options):  # type: (typing.IO, **typing.Any) -> canmatrix.CanMatri
                     # variable processing
                 elif line.startswith('ID'):
                     comment = ""
-                    if '//' in line:
-                        split = line.split('//', 1)
-                        comment = split[1].strip()
-                        line = split[0].strip()
+                    statement, comment_text = split_comment(line)
+                    if comment_text is not None:
+                        comment = comment_text.strip()
+                        line = statement.strip()
                     id_text = line.split('=')[1].strip()
                     if not id_text.endswith('h'):
                         # a statement that was cut ("ID=12" for "ID=123h") is malformed, not another identifier
